@@ -3,4 +3,4 @@
 set -u
 export GOFLAGS=-mod=mod GOPROXY=off GOSUMDB=off GOTOOLCHAIN=local
 HERE=$(cd "$(dirname "$0")" && pwd)
-exec "$HERE/bin/gosym" -verif "$HERE" -repo /repo -property "$1" -replay-file "$2"
+exec "$HERE/bin/gosym" -verif "$HERE" -repo /repo -property "$1" -replay-file "$(realpath "$2")"
